@@ -161,6 +161,10 @@ def collectH : Handler := fun j => do
   let occ ← getDict getName (← j.getObjVal? "occ")
   pure (Json.mkObj [("r", jPairs jNames (sortKeys (collect occ)))])
 
+def collectLabelsH : Handler := fun j => do
+  let occ ← getDict getName (← j.getObjVal? "occ")
+  pure (Json.mkObj [("r", jPairs jNames (sortKeys (collectNew occ)))])
+
 def lineNumbers : Handler := fun j => do
   let s ← getName (← j.getObjVal? "source")
   pure (Json.mkObj [("r", jName (addLineNumbers s))])
@@ -169,6 +173,6 @@ def handlers : List (String × Handler) :=
   [("c11.model", model), ("c11.spec", spec), ("c11.closure", closure),
    ("c11.spec_closure", specClosure), ("c11.exportations", exportationsH),
    ("c11.spec_exportations", specExportationsH), ("c11.relabel", relabelH),
-   ("c11.prepared", preparedH), ("c11.prepared_taxa", preparedTaxaH), ("c11.collect", collectH), ("c11.line_numbers", lineNumbers)]
+   ("c11.prepared", preparedH), ("c11.prepared_taxa", preparedTaxaH), ("c11.collect", collectH), ("c11.collect_labels", collectLabelsH), ("c11.line_numbers", lineNumbers)]
 
 end Driver.C11
